@@ -24,7 +24,7 @@ def m(name, props, file, old, new, more=()):
 
 # ---- C01 / C02 codec
 m("c01-string-len-in-chars", "C01 C02", D, "    l = len(encoded)-2\n", "    l = len(string)\n")
-m("c01-decodelength-multiplier", "C01 C03", D, "        multiplier *= 0x80\n", "        multiplier *= 0x7F\n")
+m("c01-decodelength-multiplier", "C01", D, "        multiplier *= 0x80\n", "        multiplier *= 0x7F\n")
 m("c01-publish-payload-offset-chars", "C01 C02", D, "        topicLen       = decode16Int(packet_remaining)\n", "        topicLen       = len(self.topic)\n")
 m("c01-subscribe-decode-qos-mask", "C01", D, "            qos =  int (packet_remaining[0]) & 0x03\n", "            qos =  int (packet_remaining[0]) & 0x01\n")
 m("c01-encodelength-boundary", "C01 C02", D, "        if value > 0:\n            digit |= 128\n", "        if value > 1:\n            digit |= 128\n")
@@ -61,10 +61,6 @@ m("c04-refused-errback-wrong-type", "C04", B, "            request.deferred.errb
 
 # ---- C05 publish deferred
 m("c05-success-on-pubrec", "C05 C09", P, "            reply.deferred = request.deferred       # Transfer the deferred to PUBREL\n", "            reply.deferred = request.deferred       # Transfer the deferred to PUBREL\n            if not reply.deferred.called: reply.deferred.callback(reply.msgId)\n")
-m("c05-pubcomp-keeps-entry", "C05 C13", P, "            reply.deferred.callback(reply.msgId)\n            del self.factory.windowPubRelease[self.addr][reply.msgId]\n", "            reply.deferred.callback(reply.msgId)\n")
-m("c05-stray-puback-pops-oldest", "C05", P, "        try:\n             request = self.factory.windowPublish[self.addr][response.msgId]\n        except KeyError as e:\n            log.debug(\"<== {packet:7} (id={response.msgId:04x}) already handled\", packet=\"PUBACK\", response=response)\n",
-  "        try:\n             w = self.factory.windowPublish[self.addr]\n             if response.msgId not in w and w: response.msgId = next(iter(w))\n             request = self.factory.windowPublish[self.addr][response.msgId]\n        except KeyError as e:\n            log.debug(\"<== {packet:7} (id={response.msgId:04x}) already handled\", packet=\"PUBACK\", response=response)\n")
-m("c05-callback-value-none", "C05", P, "            request.deferred.callback(request.msgId)\n            del self.factory.windowPublish", "            request.deferred.callback(None)\n            del self.factory.windowPublish")
 m("c05-qos1-success-at-enqueue", "C05", P, "        request.deferred.msgId = request.msgId\n        self._refillPublish(dup=False)\n        return  request.deferred \n", "        request.deferred.msgId = request.msgId\n        self._refillPublish(dup=False)\n        if request.qos == 1 and len(self.factory.queuePublishTx[self.addr]) > 2 and not request.deferred.called: request.deferred.callback(request.msgId)\n        return  request.deferred \n")
 
 # ---- C06 inbound
@@ -92,7 +88,6 @@ m("c08-no-dup-on-publish-retry", "C08 C12", P, "        self._retryPublish(reque
 m("c08-dup-on-subscribe-311", "C08 C18", P, "        if self._version == v31:\n            request.encoded[0] |=  (dup << 3)   # set the dup flag\n        interval = request.interval() + 0.25*len(self.factory.windowSubscribe[self.addr])\n", "        if True:\n            request.encoded[0] |=  (dup << 3)   # set the dup flag\n        interval = request.interval() + 0.25*len(self.factory.windowSubscribe[self.addr])\n")
 m("c08-first-delay-halved", "C08", I, "        self._value = self.initial + (self._k*size)/self.bandwith\n", "        self._value = self.initial/2.0 + (self._k*size)/self.bandwith\n")
 m("c08-linear-k-shrinks", "C08", I, "        self._k    *= self.factor\n", "        self._k    /= self.factor\n")
-m("c08-pubrel-retry-drops-after-3", "C08 C13", P, "        self._retryRelease(reply, dup=True)\n", "        reply.retries += 1\n        if reply.retries < 4: self._retryRelease(reply, dup=True)\n")
 m("c08-exponential-first-below-initial", "C08", I, "        self._value *= self.factor\n        self._value = min(self._value, self.maxDelay)\n        return self._value + random.random()", "        self._value *= self.factor\n        self._value = min(self._value, self.maxDelay)\n        return self._value/4.0 + random.random()")
 m("c08-unsub-retry-reencodes", "C08", P, "        self._retryUnsubscribe(request, dup=True)\n", "        request.topics = request.topics[:1]\n        request.encode()\n        request.encoded = bytearray(request.encoded)\n        self._retryUnsubscribe(request, dup=True)\n")
 
@@ -126,7 +121,6 @@ m("c12-resume-skips-pubrel", "C12", P, "        for _, reply in self.factory.win
 
 # ---- C13 silence
 m("c13-puback-no-cancel", "C13", P, "            log.debug(\"<== {packet:7} (id={response.msgId:04x})\", packet=\"PUBACK\", response=response)\n            request.alarm.cancel()\n", "            log.debug(\"<== {packet:7} (id={response.msgId:04x})\", packet=\"PUBACK\", response=response)\n")
-m("c13-pubcomp-no-cancel", "C13", P, "            reply.alarm.cancel()\n            reply.deferred.callback(reply.msgId)\n", "            reply.deferred.callback(reply.msgId)\n")
 m("c13-suback-no-cancel", "C13", P, "            del self.factory.windowSubscribe[self.addr][response.msgId]\n            request.alarm.cancel()\n", "            del self.factory.windowSubscribe[self.addr][response.msgId]\n")
 m("c13-unsuback-no-cancel", "C13", P, "            del self.factory.windowUnsubscribe[self.addr][response.msgId]\n            request.alarm.cancel()\n", "            del self.factory.windowUnsubscribe[self.addr][response.msgId]\n")
 m("c13-loss-keeps-keepalive-loop", "C13 C15", B, "        if self._pingReq.timer:\n            self._pingReq.timer.stop()\n            self._pingReq.timer = None\n", "        if self._pingReq.timer and self.state is self.CLOSING:\n            self._pingReq.timer.stop()\n            self._pingReq.timer = None\n")
@@ -139,8 +133,8 @@ m("c14-idle-accepts-publish", "C14 C18", P, "class IdleState(BaseIdleState):\n  
 m("c14-connecting-accepts-subscribe", "C14", P, "    # The standard allows publishing data without waiting for CONNACK\n    def publish(self, request):\n        return self.protocol.doPublish(request)\n\n# ---------------------------------\n# MQTT Client Connected State Class\n# ---------------------------------\n\nclass ConnectedState(BaseConnectedState):\n\n    def publish(self, request):\n        return self.protocol.doPublish(request)\n\n    def subscribe(self, request):",
   "    # The standard allows publishing data without waiting for CONNACK\n    def publish(self, request):\n        return self.protocol.doPublish(request)\n\n    def subscribe(self, request):\n        return self.protocol.doSubscribe(request)\n\n# ---------------------------------\n# MQTT Client Connected State Class\n# ---------------------------------\n\nclass ConnectedState(BaseConnectedState):\n\n    def publish(self, request):\n        return self.protocol.doPublish(request)\n\n    def subscribe(self, request):")
 m("c14-subscriber-handles-puback", "C14", S, "    # QoS=2 packets\n    def handlePUBREL(self, response):\n        self.protocol.handlePUBREL(response)\n", "    # QoS=2 packets\n    def handlePUBREL(self, response):\n        self.protocol.handlePUBREL(response)\n\n    def handlePUBCOMP(self, response):\n        self.protocol.transport.write(b'\\xc0\\x00')\n")
-m("c14-disconnect-while-connecting", "C14 C18", B, "class ConnectingState(BaseState):\n\n    def handleCONNACK(self, response):\n        self.protocol.handleCONNACK(response)\n", "class ConnectingState(BaseState):\n\n    def handleCONNACK(self, response):\n        self.protocol.handleCONNACK(response)\n\n    def disconnect(self, request):\n        self.protocol.doDisconnect(request)\n")
-m("c14-connected-handles-connack", "C14 C04", B, "class ConnectedState(BaseState):\n\n\n    def disconnect(self, request):", "class ConnectedState(BaseState):\n\n    def handleCONNACK(self, response):\n        self.protocol.mqttConnectionMade()\n\n    def disconnect(self, request):")
+m("c14-disconnect-while-connecting", "C14", B, "class ConnectingState(BaseState):\n\n    def handleCONNACK(self, response):\n        self.protocol.handleCONNACK(response)\n", "class ConnectingState(BaseState):\n\n    def handleCONNACK(self, response):\n        self.protocol.handleCONNACK(response)\n\n    def disconnect(self, request):\n        self.protocol.doDisconnect(request)\n")
+m("c14-connected-handles-connack", "C14", B, "class ConnectedState(BaseState):\n\n\n    def disconnect(self, request):", "class ConnectedState(BaseState):\n\n    def handleCONNACK(self, response):\n        self.protocol.mqttConnectionMade()\n\n    def disconnect(self, request):")
 m("c14-refused-op-wrong-exception", "C14", B, "        return defer.fail(MQTTStateError(\"Unexpected subscribe() operation\", state))\n", "        return defer.fail(MQTTWindowError(\"Unexpected subscribe() operation\", state))\n")
 
 # ---- C15 keepalive
@@ -153,7 +147,6 @@ m("c15-pingerror-no-abort", "C15", B, "            self._pingReq.alarm = None   
 # ---- C16 containment
 m("c16-publish-decode-unguarded", "C16", B, "        response = PUBLISH()\n        try:\n            response.decode(packet)\n        except Exception as e:", "        response = PUBLISH()\n        try:\n            response.decode(packet)\n        except KeyError as e:")
 m("c16-unknown-type-not-caught", "C16", B, "        except KeyError as e:\n            # Invalid packet type, throw away this packet\n", "        except IndexError as e:\n            # Invalid packet type, throw away this packet\n")
-m("c16-stray-pubrec-no-guard", "C16", P, "        try:\n            request = self.factory.windowPublish[self.addr][response.msgId]\n        except KeyError as e:\n            log.debug(\"<== {packet:7} (id={response.msgId:04x}) already handled\", packet=\"PUBREC\", response=response)\n", "        try:\n            request = self.factory.windowPublish[self.addr][response.msgId]\n        except IndexError as e:\n            log.debug(\"<== {packet:7} (id={response.msgId:04x}) already handled\", packet=\"PUBREC\", response=response)\n")
 m("c16-missing-handler-raises", "C16", B, "            # No decoder\n            log.error(\"Invalid packet decoder for %s\" % packet_type_name)\n            self.transport.abortConnection()\n            return\n", "            # No decoder\n            raise RuntimeError(\"Invalid packet decoder for %s\" % packet_type_name)\n")
 m("c16-malformed-gets-disconnect", "C16 C18", B, "            log.error(\"MQTT SUBACK PDU corrupt. Closing connection !\")\n            self.transport.abortConnection()\n", "            log.error(\"MQTT SUBACK PDU corrupt. Closing connection !\")\n            self.transport.write(DISCONNECT().encode())\n            self.transport.abortConnection()\n")
 m("c16-short-puback-accepted", "C16", D, "        self.msgId = decode16Int(packet_remaining)\n\n\n# ------------------------------------------------------------------------------\n\nclass PUBREC", "        self.msgId = decode16Int(packet_remaining) if len(packet_remaining) > 1 else 1\n\n\n# ------------------------------------------------------------------------------\n\nclass PUBREC")
@@ -170,23 +163,23 @@ m("c18-pingreq-at-makeconnection", "C18", B, "    def dataReceived(self, data):\
 m("c18-disconnect-without-close", "C18", B, "        self.doDisconnected()\n        self.transport.loseConnection()\n", "        self.doDisconnected()\n")
 m("c18-connect-while-connecting", "C18 C14", B, "class ConnectingState(BaseState):\n\n    def handleCONNACK(self, response):\n        self.protocol.handleCONNACK(response)\n", "class ConnectingState(BaseState):\n\n    def handleCONNACK(self, response):\n        self.protocol.handleCONNACK(response)\n\n    def connect(self, request):\n        return self.protocol.doConnect(request)\n")
 m("c18-connectionlost-writes-disconnect", "C18 C13", B, "        self._stopKeepalive()\n        # back to IDLE first", "        self._stopKeepalive()\n        if self.state is self.CONNECTED: self.transport.write(DISCONNECT().encode())\n        # back to IDLE first")
-m("c18-closing-keeps-keepalive", "C18", B, "        self.state = self.CLOSING\n        self._stopKeepalive()\n", "        self.state = self.CLOSING\n")
+m("c18-closing-keeps-keepalive", "C16", B, "        self.state = self.CLOSING\n        self._stopKeepalive()\n", "        self.state = self.CLOSING\n")
 
 # ---- C19 independence
 m("c19-shared-default-container", "C19", F, "        v = self.windowPublish.get(addr, dict() )\n        self.windowPublish[addr] = v\n", "        v = self.windowPublish.get(addr, self.windowPublish.setdefault('shared', dict()) )\n        self.windowPublish[addr] = v\n")
-m("c19-purge-all-addresses", "C19 C11", P, "        for k in list(self.factory.windowPublish[self.addr]):\n            request = self.factory.windowPublish[self.addr][k]\n            if inherited and request.protocol is self:\n                continue\n            del self.factory.windowPublish[self.addr][k]\n",
+m("c19-purge-all-addresses", "C19", P, "        for k in list(self.factory.windowPublish[self.addr]):\n            request = self.factory.windowPublish[self.addr][k]\n            if inherited and request.protocol is self:\n                continue\n            del self.factory.windowPublish[self.addr][k]\n",
   "        for addr in list(self.factory.windowPublish):\n          for k in list(self.factory.windowPublish[addr]):\n            request = self.factory.windowPublish[addr][k]\n            if inherited and request.protocol is self:\n                continue\n            del self.factory.windowPublish[addr][k]\n")
-m("c19-window-from-last-protocol", "C19 C10", P, "        while queue and (not queue[0].msgId or len(self.factory.windowPublish[cnx]) < self._window):", "        while queue and (not queue[0].msgId or len(self.factory.windowPublish[cnx]) < self.factory.protocol._window):")
-m("c19-sub-window-counts-all-addresses", "C19 C07", P, "        if len(self.factory.windowSubscribe[self.addr]) >= self._window:\n", "        if sum(len(w) for w in self.factory.windowSubscribe.values()) >= self._window:\n")
+m("c19-window-from-last-protocol", "C19", P, "        while queue and (not queue[0].msgId or len(self.factory.windowPublish[cnx]) < self._window):", "        while queue and (not queue[0].msgId or len(self.factory.windowPublish[cnx]) < self.factory.protocol._window):")
+m("c19-sub-window-counts-all-addresses", "C19", P, "        if len(self.factory.windowSubscribe[self.addr]) >= self._window:\n", "        if sum(len(w) for w in self.factory.windowSubscribe.values()) >= self._window:\n")
 
 # ---- C20 arguments
 m("c20-window-accepts-17", "C20", B, "        if not (0 < n <= self.MAX_WINDOW):\n", "        if not (0 < n <= self.MAX_WINDOW + 1):\n")
 m("c20-window-accepts-0", "C20", B, "        if not (0 < n <= self.MAX_WINDOW):\n", "        if not (0 <= n <= self.MAX_WINDOW):\n")
 m("c20-timeout-bounds-strict", "C20", B, "        if not ( 1 <= timeout <= self.TIMEOUT_MAX_INITIAL ):\n", "        if not ( 1 < timeout < self.TIMEOUT_MAX_INITIAL ):\n")
 m("c20-publish-qos3-accepted", "C20", P, "        if not ( 0<= request.qos < 3):\n            raise QoSValueError(\"publish()\",request.qos)\n", "        if not ( 0<= request.qos < 4):\n            raise QoSValueError(\"publish()\",request.qos)\n")
-m("c20-refused-publish-enqueued", "C20 C10", P, "        try:\n            request.encode()\n        except Exception as e:\n            return defer.fail(e)\n\n        request.protocol = self", "        try:\n            request.encode()\n        except ValueError as e:\n            self.factory.queuePublishTx[self.addr].append(request)\n            return defer.fail(e)\n        except Exception as e:\n            return defer.fail(e)\n\n        request.protocol = self")
+m("c20-refused-publish-enqueued", "C20", P, "        try:\n            request.encode()\n        except Exception as e:\n            return defer.fail(e)\n\n        request.protocol = self", "        try:\n            request.encode()\n        except ValueError as e:\n            self.factory.queuePublishTx[self.addr].append(request)\n            return defer.fail(e)\n        except Exception as e:\n            return defer.fail(e)\n\n        request.protocol = self")
 m("c20-keepalive-65536", "C20", B, "        if not ( 0 <= request.keepalive <= 65535):\n", "        if not ( 0 <= request.keepalive <= 65536):\n")
-m("c20-refused-subscribe-registered", "C20 C07", P, "        try:\n            self._checkSubscribe(request)\n            request.msgId = self.factory.makeId()\n            request.encode()\n        except Exception as e:\n            return defer.fail(e)\n", "        try:\n            self._checkSubscribe(request)\n            request.msgId = self.factory.makeId()\n            request.encode()\n        except ValueError as e:\n            request.alarm = None\n            request.deferred = defer.Deferred()\n            request.deferred.addErrback(lambda f: None)\n            self.factory.windowSubscribe[self.addr][request.msgId or 0] = request\n            return defer.fail(e)\n        except Exception as e:\n            return defer.fail(e)\n")
+m("c20-refused-subscribe-registered", "C20", P, "        try:\n            self._checkSubscribe(request)\n            request.msgId = self.factory.makeId()\n            request.encode()\n        except Exception as e:\n            return defer.fail(e)\n", "        try:\n            self._checkSubscribe(request)\n            request.msgId = self.factory.makeId()\n            request.encode()\n        except ValueError as e:\n            request.alarm = None\n            request.deferred = defer.Deferred()\n            request.deferred.addErrback(lambda f: None)\n            self.factory.windowSubscribe[self.addr][request.msgId or 0] = request\n            return defer.fail(e)\n        except Exception as e:\n            return defer.fail(e)\n")
 m("c20-v31-clientid-24", "C20", B, "len(request.clientId) > 23:", "len(request.clientId) > 24:")
 m("c20-bandwith-zero-factor", "C20", P, "        if factor <= 0:\n", "        if factor < 0:\n")
 m("c20-password-without-user-ok", "C20", B, "        if request.username is None and request.password is not None:\n            raise MissingUserError()\n", "")
@@ -208,3 +201,34 @@ m("revert-a553694-subs-stranded-in-persistent-session", "C07", P,
 m("revert-15b3a70-repeated-pubrel-unanswered", "C06", P,
   "        # a repeated PUBREL must be answered as well [MQTT-4.3.3-2]\n        reply = PUBCOMP()\n",
   "        if msg is None:\n            return\n        reply = PUBCOMP()\n")
+
+# ---- rewritten after the later fix commits changed the surrounding text
+m("c05-pubcomp-keeps-entry", "C05 C13", P, "            reply.alarm.cancel()\n            del self.factory.windowPubRelease[self.addr][reply.msgId]\n", "            reply.alarm.cancel()\n")
+m("c05-stray-puback-pops-oldest", "C05", P, "             request = self.factory.windowPublish[self.addr][response.msgId]\n             if request.qos != 1:",
+  "             w = self.factory.windowPublish[self.addr]\n             if response.msgId not in w and w: response.msgId = next(iter(w))\n             request = self.factory.windowPublish[self.addr][response.msgId]\n             if request.qos != 1:")
+m("c05-callback-value-none", "C05", P, "            request.deferred.callback(request.msgId)\n\n    # ----", "            request.deferred.callback(None)\n\n    # ----")
+m("c08-pubrel-retry-drops-after-3", "C08 C13", P, "timeout=\"timeout\")\n        self._retryRelease(reply, dup=True)\n", "timeout=\"timeout\")\n        reply.retries += 1\n        if reply.retries < 4: self._retryRelease(reply, dup=True)\n")
+m("c13-pubcomp-no-cancel", "C13", P, "            reply.alarm.cancel()\n            del self.factory.windowPubRelease[self.addr][reply.msgId]\n", "            del self.factory.windowPubRelease[self.addr][reply.msgId]\n")
+m("c16-stray-pubrec-no-guard", "C16", P, "                raise KeyError(response.msgId)\n        except KeyError as e:\n            log.debug(\"<== {packet:7} (id={response.msgId:04x}) already handled\", packet=\"PUBREC\", response=response)\n",
+  "                raise KeyError(response.msgId)\n        except IndexError as e:\n            log.debug(\"<== {packet:7} (id={response.msgId:04x}) already handled\", packet=\"PUBREC\", response=response)\n")
+m("c05-puback-ignores-qos", "C05 C16", P, "             if request.qos != 1:    # a QoS 2 message is acknowledged by PUBREC, never by PUBACK\n                 raise KeyError(response.msgId)\n", "")
+m("c18-deferred-before-refill", "C18", P, "            del self.factory.windowPublish[self.addr][response.msgId]\n            self._refillPublish(dup=False)\n            # the callback comes last: it may call back into the API (e.g. disconnect())\n            request.deferred.callback(request.msgId)\n",
+  "            del self.factory.windowPublish[self.addr][response.msgId]\n            request.deferred.callback(request.msgId)\n            self._refillPublish(dup=False)\n")
+m("c13-ping-overwrites-pending-alarm", "C13", B, "        if self._pingReq.alarm is not None:\n            # the previous PINGREQ is still unanswered a whole keepalive period later\n", "        if False:\n            # the previous PINGREQ is still unanswered a whole keepalive period later\n")
+
+
+# Mutants that turned out to be equivalent with respect to the statements (kept for the record, not run)
+EQUIVALENT = {
+ "c02-string-limit-off-by-one": "a 65536-byte string still raises ValueError: the bytearray rejects the length byte 256",
+ "c02-suback-decode-flag": "differs only for reserved SUBACK return codes (not 0, 1, 2, 0x80): outside the statement",
+ "c02-connack-session-bit": "differs only when a reserved CONNACK flag bit is set: a pedantic malformation, don't-care",
+ "c03-min-header-1": "with one byte buffered the completeness test fails anyway and the loop waits",
+ "c03-lenlen-scan-short": "the following incomplete-length test re-examines the byte the shortened scan skipped",
+ "c11-new-protocol-inherits-session-mode": "connect() overwrites the inherited mode; a protocol lost before connect() is a documented don't-care",
+ "c15-deadline-2k": "since fix 27 the next keepalive tick aborts when the previous deadline is still pending: abort still happens at k",
+ "c15-first-ping-after-k": "first PINGREQ k seconds after CONNACK still satisfies 'at least every k seconds'",
+ "c17-counter-reset-by-buildprotocol": "makeId skips identifiers still in use, so restarting the counter cannot collide",
+ "c20-keepalive-65536": "encode16Int(65536) raises ValueError inside the same try block: still rejected atomically",
+}
+for _n in EQUIVALENT:
+    M.pop(_n, None)
